@@ -148,6 +148,9 @@ func Ed25519Sign(priv ed25519.PrivateKey, message []byte) []byte {
 }
 
 func Ed25519Verify(pub ed25519.PublicKey, message, sig []byte) bool {
+	if len(pub) != ed25519.PublicKeySize {
+		panic("ed25519: bad public key length") // as the real ed25519.Verify does
+	}
 	c := &SigCall{KeyID: keyID(pub), Msg: clone(message), Sig: clone(sig)}
 	c.OK = Bool()
 	Verifies = append(Verifies, c)
@@ -213,6 +216,9 @@ var (
 
 // Ed25519VerifyWithOptions models ed25519.VerifyWithOptions.
 func Ed25519VerifyWithOptions(pub ed25519.PublicKey, message, sig []byte, opts *ed25519.Options) error {
+	if len(pub) != ed25519.PublicKeySize {
+		panic("ed25519: bad public key length") // as the real ed25519.VerifyWithOptions does
+	}
 	c := &SigCtxCall{KeyID: keyID(pub), Msg: clone(message), Sig: clone(sig), Ctx: []byte(opts.Context)}
 	c.OK = Bool()
 	CtxVerifies = append(CtxVerifies, c)
